@@ -1,4 +1,4 @@
-"""C19 -- pattern matching and restructuring (clauses R19.1-R19.12)."""
+"""C19 -- pattern matching and restructuring (clauses R19.1-R19.13)."""
 from __future__ import annotations
 
 import ast
@@ -21,6 +21,7 @@ EXPLANATION = (
     ' R19.9: the goal is re-indented relative to the START of the match region.'
     ' R19.10: a pattern is reduced to an expression node only when it is exactly one statement.'
 )
+EXPLANATION += ' R19.13: an elif clause is not offered to the statement matcher.'
 EXPLANATION += ' R19.12: a function that remembers its answer under a key reads, in the computation of the remembered value, nothing of its parameters that the key does not contain (followed into the helpers it calls).'
 ASSUMPTIONS = ["node.region is exact (rests on C08)"]
 
@@ -145,6 +146,7 @@ def check(ctx, res) -> None:
     from .common import memo_key_rule
 
     memo_key_rule(ctx, res, "R19.12", ("rope.refactor.similarfinder", "rope.refactor.restructure", "rope.refactor.wildcards"))
+    _elif_clause_rule(ctx, res)
 
 
 def _check_main(ctx, res) -> None:
@@ -538,3 +540,60 @@ def _no_textual_prefilter_rule(ctx, res) -> None:
             f"`{ast.unparse(bad.ast)}` decides on the TEXT of the resource whether it is searched at all: an instance that does not spell the pattern's words "
             "(`else:` + `if` for `elif`, an implicitly concatenated string, different comments) is found by the tree matcher but its file is skipped, so "
             "the restructuring silently leaves it unchanged", function=f.qualname)
+
+
+def _elif_clause_rule(ctx, res) -> None:
+    """R19.13: every match must be a genuine instance.  The statement matcher offers every list-valued field of every node to
+    the pattern.  One such list is not a list of free-standing statements: the `orelse` of an `If` that holds a single `If`
+    spelled `elif` -- its source starts with `elif`, its region is the clause, and replacing the region with the goal
+    text turns the clause into a second `if`.  On the way from the field loop to the list matcher there is a test that
+    looks at the field name `orelse` and at the kind of the single element (`isinstance(<list>[0], ast.If)`, helpers read
+    in place)."""
+    from . import common
+    idx = ctx.idx
+    f = idx.need_func("rope.refactor.similarfinder._ASTMatcher._check_statements")
+    node = common.inlined(idx, f)
+    cfg = CFG(node)
+    cls = f.cls
+    n = 0
+    for nd in cfg.nodes:
+        if nd.kind not in ("stmt", "test") or nd.ast is None:
+            continue
+        # the list matcher, called -- or, when it was inlined, the statement-sequence match it performs
+        calls = [c for c in ([nd.ast] if isinstance(nd.ast, ast.Call) else []) + list(calls_in(nd.ast)) if is_self_attr(c.func) and ("stmt_list" in c.func.attr or c.func.attr == "_match_stmts")]
+        if not calls:
+            continue
+        n += 1
+
+        def looks_at_elif(t) -> bool:
+            texts = [t]
+            for c in ast.walk(t):
+                if isinstance(c, ast.Call) and is_self_attr(c.func) and cls is not None:
+                    m = idx.find_method(cls.qualname, c.func.attr)
+                    if m is not None:
+                        texts.append(m.node)
+            has_field = any(isinstance(x, ast.Constant) and x.value == "orelse" for tt in texts for x in ast.walk(tt)) or \
+                any(isinstance(x, ast.Attribute) and x.attr == "orelse" for tt in texts for x in ast.walk(tt))
+            has_kind = any(isinstance(x, ast.Call) and call_name(x) == "isinstance" and len(x.args) == 2 and (dotted(x.args[1]) or "").split(".")[-1] == "If"
+                           and isinstance(x.args[0], ast.Subscript) for tt in texts for x in ast.walk(tt))
+            return has_field and has_kind
+        # "not (field is orelse and it is an elif clause)" is a disjunction, so it is no single guard of the call: what must
+        # hold is that within one round of the field loop the call cannot be reached from the edge on which the test
+        # (with the field-name test in front of it or inside it) answered yes
+        loops = [x.id for x in cfg.nodes if x.kind == "loop"]
+        ok = False
+        for t in cfg.nodes:
+            if t.kind != "test":
+                continue
+            combined = looks_at_elif(ast.BoolOp(op=ast.And(), values=[t.ast] + [gt for gt, gp in cfg.guards(t.id) if gp]))
+            if not combined:
+                continue
+            for b, lab in cfg.succ[t.id]:
+                if lab == "true" and nd.id not in cfg.reachable(b, avoid_nodes=loops):
+                    ok = True
+        res.add("R19.13", f"_ASTMatcher._check_statements|elif-clause-is-no-statement-list#{n}", ok, f"{f.unit.rel}:{nd.lineno}",
+                "the orelse list that is an elif clause is not offered to the statement matcher" if ok else
+                f"`{ast.unparse(calls[0])}` is applied to every list-valued field, also to the `orelse` of an If that holds one If spelled `elif`: the pattern "
+                "`if ${c}: ...` matches the clause, the match's region starts at the keyword `elif`, and restructuring writes the goal over it -- `elif b:` becomes "
+                "`if b:` and the program takes both branches", function=f.qualname)
+    res.floor("R19.13", "applications of the statement-list matcher", n, 1)
